@@ -158,10 +158,9 @@ Theorem C11_boundary_interior_edges_partition :
 Proof. exact boundary_interior_partition. Qed.
 Print Assumptions C11_boundary_interior_edges_partition.
 
-(* f2e = the mapping of build_entities(facets, boundary-refdom facets).  Full statement wanted: f2e[s][f] is the number IN
-   mesh.edges of the s-th edge of facet f.  Proved: it numbers the entity array rebuilt from the facets, slot by slot,
-   and that array IS mesh.edges whenever both span the same set of vertex pairs (np.unique depends only on the set). *)
-Theorem C11_f2e_slotwise_partial :
+(* f2e = the mapping of build_entities(facets, boundary-refdom facets): it numbers, slot by slot, the entity array rebuilt from
+   the facets; that array IS mesh.edges whenever both span the same set of vertex pairs (np.unique depends only on the set) *)
+Theorem C11_f2e_slotwise :
   forall (facets bnd_idx cells edge_idx : list (list nat)) (s f : nat), s < length bnd_idx -> f < length facets ->
     nth (nth f (nth s (mapping facets bnd_idx) []) 0) (entities true facets bnd_idx) []
       = isort (slotv (nth s bnd_idx []) (nth f facets [])) /\
@@ -172,7 +171,25 @@ Proof.
   - exact (t2f_slotwise facets bnd_idx s f Hs Hf).
   - exact (entities_ext facets bnd_idx cells edge_idx).
 Qed.
-Print Assumptions C11_f2e_slotwise_partial.
+Print Assumptions C11_f2e_slotwise.
+
+(* ... and for tetrahedral meshes (tables regenerated from refdom.py) it always is: for EVERY cell list, f2e[s][f] is the number
+   IN mesh.edges of the s-th side of facet f.  (For hexahedra the same needs the two cells of a facet to list its vertices in the
+   same cyclic order — a geometric conformity assumption; there f2e is corresponded and checked by the oracle.) *)
+Theorem C11_f2e_numbers_mesh_edges_tet :
+  forall (cells : list (list nat)) (s f : nat),
+    let facets := entities tet_sortf cells tet_facets in
+    entities true facets tet_bnd = entities true cells tet_edges /\
+    (s < length tet_bnd -> f < length facets ->
+     nth (nth f (nth s (mapping facets tet_bnd) []) 0) (entities true cells tet_edges) []
+       = isort (slotv (nth s tet_bnd []) (nth f facets []))).
+Proof.
+  intros cells s f facets. unfold facets. rewrite tet_sorted_facets.
+  assert (E : entities true (entities true cells tet_facets) tet_bnd = entities true cells tet_edges).
+  { apply f2e_numbers_mesh_edges; [exact tet_bnd_all_pairs | exact tet_facets_have_three_vertices | exact tet_compose_ok]. }
+  split; [exact E|]. intros Hs Hf. rewrite <- E. now apply t2f_slotwise.
+Qed.
+Print Assumptions C11_f2e_numbers_mesh_edges_tet.
 
 (* ---- non-vacuity: two triangles sharing the edge {1,2}, one renumbered quadrilateral pair, a tetrahedron *)
 Example C11_two_triangles :
